@@ -153,6 +153,9 @@ def main(argv=None):
     shutil.rmtree(workdir, ignore_errors=True)
     os.makedirs(workdir)
     specs = mod.plan(tier, seed)
+    if getattr(mod, "SUITE_TESTS", None) and (tier == "thorough" or os.environ.get("VERIF_SUITE") == "1"):
+        # the repository's own tests as one more monitored workload
+        specs.append({"suite": list(mod.SUITE_TESTS), "timeout": 3600})
     results = run_shards(pid, tier, seed, specs, workdir)
     rec = Recorder(pid, tier, seed, -1)
     for i, rc in sorted(results.items()):
